@@ -47,6 +47,13 @@ def apply_config(b: prog.Built, P: Dict[str, Any], via: str) -> None:
 
 def run_config(P: Dict[str, Any], args: List[Any], cfg: Dict[str, Any]) -> Tuple[Any, Optional[BaseException], Optional[sched.Exec], Optional[prog.Built]]:
     """Build P under cfg and call it once.  Returns (value, exception, exec, built)."""
+    from .env import process_env
+
+    with process_env(log_debug=cfg.get("env") == "log_debug"):
+        return _run_config(P, args, cfg)
+
+
+def _run_config(P: Dict[str, Any], args: List[Any], cfg: Dict[str, Any]) -> Tuple[Any, Optional[BaseException], Optional[sched.Exec], Optional[prog.Built]]:
     import tawazi
 
     via = cfg.get("via", "decorator")
@@ -133,6 +140,8 @@ def configs(draw: Any, n: int = 3, sites: Optional[List[str]] = None, modes: Any
                              "debug": draw(st.booleans()), "build_debug": draw(st.booleans()),
                              "derive": draw(st.sampled_from([None, None, None, "deepcopy", "executor"])),
                              "setup_first": draw(st.sampled_from([False, False, True]))}
+        if draw(st.integers(0, 7)) == 0:
+            c["env"] = "log_debug"  # tawazi's logging is on, a sink listens at DEBUG level, while building and running
         if c["mode"] == "ctl":
             c["choices"] = draw(st.lists(st.integers(0, 2**16), max_size=10))
         elif sites:
